@@ -17,7 +17,7 @@ func init() {
 	Registry["C13"] = checkC13
 	Descriptions["C06"] = "C06-own-request (the variables the per-request goroutine captures are per-iteration ones, never assigned again by the read loop after the go statement), C06-counter (Request.ID is fed, through newRequest/readRequest/ResponseWriter.requestID, by the read loop's induction register phi(0,v+1)+1), " +
 		"C06-sequential-read (readRequest is called only synchronously from the read loop), C06-async (every synchronous route to a handler from the loop is control-dependent on routeOp==unbind or extendedName==StartTLS; all other requests reach (*Mux).serve only through a go statement), " +
-		"C06-nojoin (the loop body contains no operation that can wait for a handler), C06-conn-async (serveRequests is reached from Run only through go). Decides numbering and absence of wait edges; scheduler progress is not decided."
+		"C06-nojoin (the loop body contains no operation that can wait for a handler), C06-nolock-wait (no mutex of Server or Mux can be held at a call that waits for a connection's handlers), C06-conn-async (serveRequests is reached from Run only through go). Decides numbering and absence of wait edges; scheduler progress is not decided."
 	Descriptions["C10"] = "C10-first (both dispatch sites are control-dependent on routeOp != unbind, and every path from the read reaches the unbind test before a response write, a dispatch or the next read), C10-terminal (from the unbind edge every path leaves serveRequests without readRequest, serve, go or the loop back edge), " +
 		"C10-handler-once (the unbind route's handler is invoked exactly once iff one is registered, with this request and writer), C10-silent (gldap writes no response on that path), C10-classify (UnbindMessage <-> unbindRouteOperation <-> APP[2]), C10-inflight-waited (the teardown waits for the handlers dispatched before the Unbind - requestsWg.Add happens before the go statement, Wait precedes Close: rules C08-paired / C08-sequence)."
 	Descriptions["C13"] = "C13-inline (StartTLS dispatch is a plain call in the read loop), C13-rawhandshake (tls.Server on a load of conn.netConn; initConn reached only when Handshake returned nil, with that very tls.Conn), " +
@@ -268,27 +268,8 @@ func checkC06(c *Ctx) {
 	} else {
 		// the go closure calls serve exactly once on every path with this iteration's w and r
 		t := m.reqFn
-		var sc []ssa.CallInstruction
-		for _, ci := range an.Calls(t) {
-			if isMuxServe(ci.Common()) && isCall(ci) {
-				sc = append(sc, ci)
-			}
-		}
-		if len(sc) != 1 {
-			R.Fail("C03-dispatch", fname(t)+": serve once", c.P.Pos(t.Pos()), sprintf("per-request goroutine calls router.serve %d times", len(sc)))
-		} else {
-			cnt := an.CountEvents(t, an.Entry(t), isInstr(sc[0]), nil)
-			good := true
-			for _, ret := range an.Returns(t) {
-				if cnt[ret] != an.C1 {
-					good = false
-				}
-			}
-			args := sc[0].Common().Args
-			wOK := isThisIterationWriter(an.StripX(args[1]), m)
-			rOK := isThisRequest(an.StripX(args[2]), m)
-			R.Check(good && wOK && rOK, "C03-dispatch", fname(t)+": serve(w, r) exactly once", c.pos(sc[0]), "one call on every path with this iteration's writer and the request just read", sprintf("dispatch is not exactly-once with this iteration's (w, r): once=%v w=%v r=%v", good, wOK, rOK))
-		}
+		okOnce, why := serveExactlyOnce(t, m)
+		R.Check(okOnce, "C03-dispatch", fname(t)+": serve(w, r) exactly once", c.P.Pos(t.Pos()), "one call on every path with this iteration's writer and the request just read", "dispatch is not exactly-once with this iteration's (w, r): "+why)
 		// the go must not be under the unbind / TLS atoms and must be after a successful read
 		R.Check(an.InstrDominates(m.readReq, m.reqGo), "C06-async", "(*conn).serveRequests: go after readRequest", c.pos(m.reqGo), "dispatch follows the read", "go statement is not dominated by readRequest")
 	}
@@ -379,12 +360,75 @@ func checkC06(c *Ctx) {
 	R.Count("C06-nolock-handler/sites", nH)
 	R.Floor("C06-nolock-handler", 2)
 
+	// ---- C06-nolock-wait: no lock that connections share (a mutex of Server or Mux) is (possibly) held at a call that
+	// waits for one connection's handlers (conn.requestsWg.Wait, e.g. through (*conn).close): a handler that blocks
+	// would stall, through that lock, the accept loop or the other connections that need it.
+	nW := 0
+	for _, f := range shipped {
+		var may map[ssa.Instruction]an.LockSet
+		for _, ci := range an.Calls(f) {
+			if isGo(ci) {
+				continue
+			}
+			if !callReaches(ci, func(cc *ssa.CallCommon) bool { return isWG(cc, "Wait", G, "conn", "requestsWg") }, map[*ssa.Function]bool{}) {
+				continue
+			}
+			if may == nil {
+				may = an.MayLockSets(f, nil)
+			}
+			nW++
+			bad := ""
+			for k := range may[ci] {
+				if o := lockOwnerType(f, k); o == "Server" || o == "Mux" {
+					bad = o + "." + strings.TrimSuffix(k[strings.LastIndex(k, ".")+1:], "(r)")
+				}
+			}
+			key := fname(f) + ": waits for a connection's handlers without a server-wide lock"
+			if bad == "" {
+				R.OK("C06-nolock-wait", key, c.pos(ci), "no mutex shared by all connections can be held while this call waits for the handlers")
+			} else {
+				R.Fail("C06-nolock-wait", key, c.pos(ci), bad+" can be held while this call waits for the connection's handlers to return: a handler that blocks stalls everything else that needs the lock (other connections, the accept loop)")
+			}
+		}
+	}
+	R.Count("C06-nolock-wait/sites", nW)
+	R.Floor("C06-nolock-wait", 2)
+
 	// ---- C06-conn-async
 	for _, ci := range callSites(shipped, isStatic(G, "(*conn).serveRequests")) {
 		R.Check(ci == m.serveCall, "C06-conn-async", fname(ci.Parent())+": serveRequests", c.pos(ci), "called only inside the per-connection goroutine started by go in Run", "serveRequests is called outside the per-connection goroutine: the accept loop would serve connections one at a time")
 	}
 	R.Check(m.connGo != nil && loopHeadOf(m.connGo) == loopHeadOf(m.accept), "C06-conn-async", "(*Server).Run: go per connection in accept loop", c.pos(m.connGo), "every accepted connection gets its own goroutine", "the per-connection go is not in the accept loop")
 	R.NotDecided = append(R.NotDecided, "scheduler fairness / actual progress of concurrent handlers")
+}
+
+// callReaches: the call is, or synchronously runs (through module functions,
+// not through go statements), a call matching pred.
+func callReaches(ci ssa.CallInstruction, pred func(*ssa.CallCommon) bool, seen map[*ssa.Function]bool) bool {
+	if pred(ci.Common()) {
+		return true
+	}
+	for _, u := range syncCalleesOf(ci) {
+		if seen[u] {
+			continue
+		}
+		seen[u] = true
+		for _, f := range an.WithClosures(u) {
+			if f != u {
+				// closures of u run synchronously only when deferred or called; count them all (conservative)
+				seen[f] = true
+			}
+			for _, ic := range an.Calls(f) {
+				if isGo(ic) {
+					continue
+				}
+				if callReaches(ic, pred, seen) {
+					return true
+				}
+			}
+		}
+	}
+	return false
 }
 
 func isThisIterationWriter(v ssa.Value, m *serverModel) bool {
